@@ -164,6 +164,10 @@ class SymInputs:
         return call
 
     def axiom(self, cond):
+        if _isinstance(cond, bool):
+            if not cond:
+                raise core.PathAbort()
+            return
         self.ctx.add_axiom(cond.z if _isinstance(cond, SymBool) else cond)
 
     def assume(self, cond):
